@@ -153,6 +153,28 @@ CLAIMED.update({
 })
 
 CLAIMED.update({
+ "C01": dict(category="other",
+    text="Proved per function: sendFrame writes exactly the RFC 6455 5.2 encoding of its frame (FIN|RSV|opcode, minimal "
+         "7/16/64-bit length, MASK bit by role policy, a fresh 4-octet key, payload XORed from offset 0) -- for every "
+         "payload length, role and option combination; codec lemma: the header decision of processData applied to "
+         "that encoding gives back fin/rsv/opcode/length/mask flag and the payload offset (three length forms); the "
+         "payload arm of processData consumes exactly min(buffered, rest of frame) octets whatever the read boundary, "
+         "hands them on once, unmasked with the key continued from the running offset, and ends the frame exactly "
+         "when its declared length is reached; the chopped / synchronous write queue is FIFO (everything handed to "
+         "sendData is in order on the wire or still queued; a direct write happens only with an empty queue); "
+         "sendMessage emits one well-formed frame sequence carrying exactly the payload for every fragmentation, "
+         "header decision for all 2^16 header octet pairs, reassembly and exactly-once delivery (shared units with "
+         "C02/C16).",
+    note=WS_NOTE + " The induction from the per-call contracts to whole streams (any segmentation of a well-formed frame "
+         "sequence decodes to the same messages) is the standard argument and is NOT mechanised; compression (C12), the "
+         "streaming send API, PreparedMessage and the hand-over after the HTTP handshake are not covered: level 'other'. "
+         "Undecided sequence-theory obligations are handed to a boundary-case search on the real protocol classes which "
+         "can only confirm violations.",
+    technique="contract-based deductive verification: AST->VC, ghost wire/queue state, spec encoder from RFC 6455, z3 "
+              "(case split on path guards), lemmas about big-endian arithmetic and join"),
+})
+
+CLAIMED.update({
  "C04": dict(category="proof",
     text="IdGenerator.next stays in 1..2^53 and is sequential; every reply arm of ApplicationSession.onMessage "
          "(PUBLISHED, SUBSCRIBED, UNSUBSCRIBED, REGISTERED, UNREGISTERED, RESULT incl. progressive, ERROR keyed by request "
